@@ -85,12 +85,11 @@ class Steps:
 
     @staticmethod
     def output_key(kind, name):
-        if kind in ('shared_library', 'library'):
-            return os.path.join(os.path.dirname(name),
-                                'lib' + os.path.basename(name) + '.so')
-        if kind == 'static_library':
-            return os.path.join(os.path.dirname(name),
-                                'lib' + os.path.basename(name) + '.a')
+        # MSVC naming: a shared library produces name.dll plus the import
+        # library name.lib, a static library produces name.lib - the same
+        # name may therefore be used for one library kind only
+        if kind in ('shared_library', 'library', 'static_library'):
+            return name + '.lib'
         return name
 
     def fresh_name(self, kind):
